@@ -510,7 +510,7 @@ fn judge<T: PartialEq + std::fmt::Debug>(acc: &mut Acc, what: &str, mutation: &s
 }
 
 pub fn run(cli: &Cli) -> (Value, Vec<Violation>) {
-    let thorough = cli.thorough();
+    let thorough = cli.level() >= 1;
     let mut acc = Acc { viol: vec![], evals: 0, accepted_valid: 0, rejected: 0 };
     let menus = slot_menus();
     let menus_q: Vec<Vec<SlotRange>> = if thorough { menus.clone() } else { vec![menus[0].clone(), menus[2].clone(), menus[4].clone(), menus[5].clone()] };
